@@ -130,7 +130,7 @@ def run(ctx):
                                        "(i1 add 2) mul 3 gt 4", "kids/all(k: k/x gt 0 or k/x eq null)", "geo.intersects(geo1, geography'POINT(1 2)')"]
     g = gens_typed.TypedGen(rng, fields={**gens_typed.FIELDS, "time": ["tm1"], "coll": ["c1"]})
     trees = [g.gen("bool", rng.randint(1, 4)) for _ in range(1500 if ctx.thorough else 250)]
-    outs = driver.run_batch([driver.req("refprint", "min", "0000", enc(t)) for t in trees])
+    outs = driver.run_batch([driver.req("refprint", "min", "000000", enc(t)) for t in trees])
     base += [unhex(o) for o in outs if o not in ("not-expr", "bad-arg")]
     base = list(dict.fromkeys(base))
     lx, ps = ODataLexer(), ODataParser()
